@@ -59,3 +59,15 @@ def skeleton(fn_node) -> str:
 
     walk(fn_node, 0)
     return hashlib.sha1(" ".join(kinds).encode()).hexdigest()[:12]
+
+
+def text_hash(fn_node) -> str:
+    """hash of the function's AST (docstrings and comments do not matter, every expression does)"""
+    import hashlib
+    import copy
+    n = copy.deepcopy(fn_node)
+    for x in ast.walk(n):
+        body = getattr(x, "body", None)
+        if isinstance(body, list) and body and isinstance(body[0], ast.Expr) and isinstance(body[0].value, ast.Constant) and isinstance(body[0].value.value, str):
+            x.body = body[1:] or [ast.Pass()]
+    return hashlib.sha1(ast.dump(n).encode()).hexdigest()[:12]
